@@ -2,7 +2,7 @@
 //   creator_file(path): answer chosen by the directory under /c20 (`pol cf <dir> <spec>`)
 //   valid_seteuid(ob, uid): answer chosen by (oid, uid) with `*` wildcards (`pol vs <oid> <uid> <spec>`)
 // spec:  s:<text> string | i:<n> int | arr array | err runtime error in the apply | none value 0
-// every call is logged as `VL cf <path> <spec>` / `VL vs <oid> s:<uid> <spec>`
+// every call is logged as `VL cf <path> <spec>` / `VL vs <oid> s:<uid> <spec>` / `VL co <path> <spec>`
 #define C20_MASTER
 #include "/c20/body.h"
 
@@ -25,8 +25,12 @@ string error_handler (mapping m, int caught) {
   return "";
 }
 
+mapping copol = ([ ]);
+int vseq = 0;
+
 void set_pol (string kind, string a, string b, string c) {
   if (kind == "cf") cfpol[a] = b;
+  else if (kind == "co") { if (b == "-") map_delete (copol, a); else copol[a] = b; }
   else if (kind == "vs") vspol[a + ":" + (b == "-" ? "" : b)] = c;
 }
 
@@ -42,6 +46,23 @@ mixed creator_file (string file) {
   string d, f, spec;
   if (sscanf (file, "/c20/%s/%s", d, f) != 2 || !stringp (spec = cfpol[d])) return "Root";
   VL ("cf " + file + " " + spec);
+  return answer (spec);
+}
+
+// compile_object(path): policy per directory (`pol co <dir> <spec>`): none | i:<n> | err | t:<template path> = clone the
+// template as `v<n>` (an ordinary op of the master, logged like any other) and hand it to the driver
+mixed compile_object (string file) {
+  string d, f, spec, r;
+  int n;
+  if (sscanf (file, "/c20/%s/%s", d, f) != 2 || !stringp (spec = copol[d])) return 0;
+  VL ("co " + file + " " + spec);
+  REG->snap ();
+  if (spec[0..1] == "t:") {
+    n = ++vseq;
+    r = run_op ("clone,v" + n + "," + spec[2..]);
+    if (r != "v" + n) return 0;     // also when the template was virtual itself and another object came back
+    return REG->get (r);
+  }
   return answer (spec);
 }
 
